@@ -387,7 +387,6 @@ func (c *Ctx) AFmt() *AFmt {
 		Ghosts:        map[string]map[string]engine.AbsVal{tBuffer: {"#ctx": str("none")}},
 		PoolInvariant: ppPoolInvariant,
 		NoPanicPkgs:   map[string]bool{pkgBuffer: true, pkgRfmt + "/fmtsort": true},
-		Wide:          c.Tier == "thorough",
 		Hooks:         hooks,
 	}
 	a.It = engine.New(cfg)
